@@ -8,6 +8,7 @@ A spec is {"name", "n", "target", "shots", "cutoff", "tdm": None | {"N": [..], "
   {"list": [..]} | {"m": mode, "k": k, "fn": None|"sin"} | {"free": name, "k": k, "add": a} |
   {"loop": i, "k": k}
 """
+import json
 import re
 from fractions import Fraction
 
@@ -61,10 +62,15 @@ def make_par(p, q, free, loop):
     raise ValueError(p)
 
 
-def build(spec):
+def build(spec, op_cache=None):
+    """`op_cache` (a dict) makes equal operations ONE shared Operation instance, within the program and across
+    all programs built with the same cache (`bs = BSgate(..)` created once and applied many times).
+    Ops "Del" / "New" delete / create modes (regs of "New" = the indices the new modes receive)."""
     import strawberryfields as sf
     from strawberryfields import ops
     tdm = spec.get("tdm")
+    if op_cache is None and spec.get("share"):
+        op_cache = {}
     if tdm:
         prog = sf.TDMProgram(N=list(tdm["N"]), name=spec.get("name"))
         ctx = prog.context(*[list(r) for r in tdm["params"]])
@@ -78,17 +84,34 @@ def build(spec):
                 free[p["free"]] = prog.params(p["free"])
     with ctx as c:
         loop, q = c if tdm else ([], c)
+        q = list(q)
         for op in spec["ops"]:
+            if op["cls"] == "Del":
+                regs = [q[i] for i in op["regs"]]
+                ops.Del | (regs if len(regs) > 1 else regs[0])
+                continue
+            if op["cls"] == "New":
+                q += list(ops.New(len(op["regs"])))
+                continue
             cls = getattr(ops, op["cls"])
-            pars = [make_par(p, q, free, loop) for p in op.get("pars", [])]
-            kw = {k: (make_par(v, q, free, loop)) for k, v in op.get("kw", {}).items()}
-            if op.get("select") is not None:
-                kw["select"] = make_par(op["select"], q, free, loop)
-            if op.get("dark") is not None:
-                kw["dark_counts"] = make_par(op["dark"], q, free, loop)
-            o = cls(*pars, **kw)
-            if op.get("dagger"):
-                o = o.H
+            key = None
+            if op_cache is not None and all(par_kind(x) in ("numeric", "array", "array1d") for x in op.get("pars", [])):
+                key = json.dumps([op["cls"], op.get("pars"), op.get("kw"), op.get("select"), op.get("dark"),
+                                  bool(op.get("dagger"))], sort_keys=True, default=str)
+            if key is not None and key in op_cache:
+                o = op_cache[key]
+            else:
+                pars = [make_par(p, q, free, loop) for p in op.get("pars", [])]
+                kw = {k: (make_par(v, q, free, loop)) for k, v in op.get("kw", {}).items()}
+                if op.get("select") is not None:
+                    kw["select"] = make_par(op["select"], q, free, loop)
+                if op.get("dark") is not None:
+                    kw["dark_counts"] = make_par(op["dark"], q, free, loop)
+                o = cls(*pars, **kw)
+                if op.get("dagger"):
+                    o = o.H
+                if key is not None:
+                    op_cache[key] = o
             regs = [q[i] for i in op["regs"]]
             o | (regs if len(regs) > 1 else regs[0])
     if spec.get("target") is not None:
@@ -165,10 +188,8 @@ def face(a, loop_vars):
 
 
 def current_value(a):
-    """the number the expression evaluates to right now (bound / measured atoms), else None"""
+    """the number the expression evaluates to right now (constant, or all atoms bound / measured), else None"""
     import strawberryfields.parameters as sfpar
-    if not list(a.free_symbols):
-        return None
     try:
         v = sfpar.par_evaluate(a)
         v = np.asarray(v)
@@ -290,7 +311,7 @@ def prog_json(prog):
         t = dict(N=[int(x) for x in prog.N], params=[[sc(x) for x in np.array(r).tolist()] for r in prog.tdm_params])
     extra = [[k, val_json(v)] for k, v in prog.run_options.items() if k != "shots"] + \
         [[k, val_json(v)] for k, v in prog.backend_options.items() if k != "cutoff_dim"]
-    return dict(name=str(prog.name), n=int(prog.num_subsystems), target=prog.target,
+    return dict(name=str(prog.name), n=len(prog.reg_refs), target=prog.target,
                 shots=prog.run_options.get("shots"), cutoff=prog.backend_options.get("cutoff_dim"),
                 tdm=t, extra=extra, cmds=[cmd_json(c, loop) for c in prog.circuit])
 
@@ -493,12 +514,61 @@ def rand_spec(rng, idx, features):
         ops.append(op)
     if not ops:
         ops.append(dict(cls="Vacuum", regs=[0], pars=[]))
-    if "unused_tail" not in features or rng.random() < 0.5:
+    if "repeat" in features:
+        # the same kind of command several times, each carrying its option: inverted gates of one class,
+        # post-selected homodyne measurements, MeasureFock with dark counts / post-selection
+        cls = rng.choice(["Sgate", "Rgate", "Dgate", "Zgate"])
+        for _ in range(rng.randint(2, 4)):
+            ops.insert(rng.randint(0, len(ops)), dict(cls=cls, regs=[rng.randrange(n)],
+                                                      pars=[number(rng, cls, j) for j in range(GATES1[cls])], dagger=True))
+        if n >= 2:
+            cls = rng.choice(["BSgate", "S2gate", "CZgate"])
+            for _ in range(rng.randint(2, 3)):
+                ops.insert(rng.randint(0, len(ops)), dict(cls=cls, regs=rng.sample(range(n), 2),
+                                                          pars=[number(rng, cls, j) for j in range(GATES2[cls])], dagger=True))
+        for _ in range(rng.randint(2, 4)):
+            ops.append(dict(cls="MeasureHomodyne", regs=[rng.randrange(n)], pars=[rng.choice([0.0, 0.25, PI / 2])],
+                            select=rng.choice([0.0, 0.5, -0.25])))
+        for _ in range(rng.randint(2, 3)):
+            regs = rng.sample(range(n), rng.randint(1, min(n, 2)))
+            o = dict(cls="MeasureFock", regs=regs, pars=[])
+            if rng.random() < 0.5:
+                o["dark"] = {"list": [rng.choice([0.125, 0.25]) for _ in regs]}
+            else:
+                o["select"] = {"list": [rng.randint(0, 2) for _ in regs]}
+            ops.append(o)
+    if "share" in features:
+        # re-apply earlier operations (the builder turns equal operations into one shared instance)
+        cands = [o for o in ops if o["cls"] not in ("Del", "New") and all(par_kind(x) in ("numeric", "array") for x in o.get("pars", []))]
+        for _ in range(rng.randint(2, 4)):
+            if not cands:
+                break
+            o = dict(rng.choice(cands))
+            k = len(o["regs"])
+            if k > n:
+                continue
+            o["regs"] = rng.sample(range(n), k)
+            ops.insert(rng.randint(0, len(ops)), o)
+    if "delnew" in features:
+        d = rng.randrange(n)
+        last = max([i for i, o in enumerate(ops) if d in o["regs"]] + [-1])
+        t = rng.randint(last + 1, len(ops))
+        ops.insert(t, dict(cls="Del", regs=[d], pars=[]))
+        if rng.random() < 0.6:
+            k = rng.randint(1, 2)
+            new = list(range(n, n + k))
+            t2 = rng.randint(t + 1, len(ops))
+            ops.insert(t2, dict(cls="New", regs=new, pars=[]))
+            for m in new:
+                ops.insert(rng.randint(t2 + 1, len(ops)), dict(cls="Sgate", regs=[m], pars=[0.25, 0.0], dagger=rng.random() < 0.5))
+    if "delnew" not in features and ("unused_tail" not in features or rng.random() < 0.5):
         used = max(max(o["regs"]) for o in ops)
         # make the last mode used (otherwise the trailing modes cannot come back)
         if used < n - 1 and "unused_tail" not in features:
             ops.append(dict(cls="Vacuum", regs=[n - 1], pars=[]))
     spec = dict(name=f"g{idx}", n=n, target=None, shots=None, cutoff=None, tdm=None, ops=ops)
+    if "share" in features:
+        spec["share"] = True
     if "options" in features and rng.random() < 0.7:
         spec["target"] = rng.choice(["gaussian", "fock", "gbs", "X8_01"])
         if rng.random() < 0.7:
